@@ -144,7 +144,7 @@ static inline RIT *QList_QSharedPointer_CategoryFilter_Rule_const_iterator_op_in
 typedef RIT QList_QSharedPointer_CategoryFilter_Rule_iterator;
 static inline BOOL QList_QSharedPointer_CategoryFilter_Rule_iterator_valid_range(RIT a, RIT b) { return a.l == b.l && 0 <= a.i && a.i <= b.i && b.i <= a.l->n; }
 static inline BOOL QList_QSharedPointer_CategoryFilter_Rule_iterator_op_ne(RIT a, RIT b) { return a.i != b.i; }
-static inline void QList_QSharedPointer_CategoryFilter_Rule_iterator_op_inc(RIT *a) { a->i++; }
+static inline RIT *QList_QSharedPointer_CategoryFilter_Rule_iterator_op_inc(RIT *a) { a->i++; return a; }
 static inline BOOL QList_QSharedPointer_CategoryFilter_Rule_iterator_op_ne__QList_QSharedPointer_CategoryFilter_Rule_iterator(RIT a, RIT b) { return a.i != b.i; }
 static inline BOOL QList_QSharedPointer_CategoryFilter_Rule_iterator_op_eq__QList_QSharedPointer_CategoryFilter_Rule_iterator(RIT a, RIT b) { return a.i == b.i; }
 static inline int QList_QSharedPointer_CategoryFilter_Rule_size(QList_QSharedPointer_CategoryFilter_Rule l) { return l.n; }
